@@ -4,7 +4,7 @@ Every sequence of <= 3 (quick) / <= 4 (thorough, reduced alphabet) tokens over a
 limit pairs, is run through the whole path (configuration file -> production wrapper -> file output)
 and compared with a reference expander written from the property statement.
 """
-import itertools, os, re
+import shutil, itertools, os, re
 from engine import harness as H
 from engine.common import pmap, BUILD
 
@@ -243,7 +243,47 @@ def template_phase(ck, v, known):
                                  {'format': f.decode('latin-1'), 'expected_name': exp.decode('latin-1'), 'observed_names': [x.decode('latin-1') for x in names]})
                 elif H.sink_bytes(d['lsdir'][0]['content']) != b'M\n':
                     ck.violation('C05:path:content:fmt=%s' % f[:50].decode('latin-1'), {'format': f.decode('latin-1')})
-    return evals, outcomes
+    # the path template has its own fixed limit (PATH_MAX): a data source inside it may be LONGER than datasource_message_max_length
+    # (directory paths are), and the configured limit must not cut it
+    e2, o2 = deep_path_cases(ck, v)
+    return evals + e2, outcomes | o2
+
+
+def deep_path_cases(ck, v):
+    w = os.path.join(ck.workdir, 'deep')
+    cases = []
+    for dsmax in (255, 300, 2047):
+        for total in (dsmax - 1, dsmax, dsmax + 1, dsmax + 200, 3500):
+            d = w + 'dirs/o%d' % dsmax      # outside the script's own work directory (which run_script recreates)
+            while total - len(d) > 202:
+                d += '/' + 'a' * 200
+            if total - len(d) >= 2:
+                d += '/' + 'c' * (total - len(d) - 1)
+            cases.append((dsmax, total, d))
+    lines = ['sinks pipe', 'lean 1']
+    for dsmax, total, d in cases:
+        os.makedirs(d, exist_ok=True)
+        cfg = b'[snoopy]\ndatasource_message_max_length = %d\nmessage_format = M\noutput = file:%%{env:DEEPDIR}/f-%%{snoopy_literal:x}\n' % dsmax
+        lines += ['setenv %s %s' % (H.hx(b'DEEPDIR'), H.hx(d.encode())), 'cfg ' + H.hx(cfg), 'call execve %s %s [] -1 2' % (H.hx(PATH), H.vec([H.hx(a) for a in ARGV]))]
+    r = H.run_script(v['h_exec'], w, '\n'.join(lines), env_extra={'VERIF_HEXMAX': '64'}, timeout=300)
+    if not r['done']:
+        ck.violation('C05:path:abort:deep_directory', {'sanitizer': r['san'][:1], 'rc': r['rc']})
+    outcomes = set()
+    n = 0
+    for (dsmax, total, d), j in zip(cases, [l for l in r['lines'] if 'call' in l]):
+        n += 1
+        f = os.path.join(d, 'f-x')
+        ok = os.path.exists(f) and open(f, 'rb').read() == b'M\n'
+        outcomes.add(('deep', dsmax, total - dsmax if total < 3000 else 'big', ok))
+        if not ok:
+            stray = [os.path.join(dp, x)[len(w):] for dp, _, fs in os.walk(w + 'dirs') for x in fs][:5]
+            ck.violation('C05:path:record_not_at_expanded_path:dir_len=%d:ds=%d' % (len(d), dsmax),
+                         {'datasource_message_max_length': dsmax, 'directory_length': len(d), 'expected_file': f[-80:], 'files_found_instead': stray})
+        elif os.path.exists(f):
+            os.unlink(f)
+    shutil.rmtree(w, ignore_errors=True)
+    shutil.rmtree(w + 'dirs', ignore_errors=True)
+    return n, outcomes
 
 
 def native_limit_phase(ck, v):
